@@ -153,7 +153,8 @@ def le(a, b):
 
 def decorate(rng, s):
     """random line breaks, multi-byte and astral characters before and between tokens (as text and comments)"""
-    pre = rng.choice(["", "\n", "😀\n", "é中\n\n", "<!-- 😀 -->\n", "𝒳 ", "\r\n", "text😀&amp;\n"])
+    pre = rng.choice(["", "\n", "😀\n", "é中\n\n", "<!-- 😀 -->\n", "𝒳 ", "\r\n", "text😀&amp;\n", "<!-- note\n 😀 -->", "R&D\n😀 ",
+                      "<!--\n\n𝒳😀--> ", "{{ /* c\n😀 */ 1 }}", "<wxs module=\"zz\">// 😀\nexports.a = 1 // 😀\n/* 😀 */</wxs>"])
     return pre + s
 
 
@@ -297,6 +298,11 @@ def run(chk):
                 if not (tail.startswith(name) or camel(tail).startswith(name) or decode_entities(tail).startswith(name)
                         or camel(tail[5:].lower()).startswith(name)):
                     p = f"name {name!r} but the source at {sl}:{sc} reads {tail[:20]!r}"
+            if p is None and name is None and di < len(o["output"]) and si < len(s) and \
+                    (o["output"][di] in "[].:?" or o["output"][di:di + 2] in ("{{", "}}")):
+                # structural punctuation is copied: the source position must show the same character
+                if s[si] != o["output"][di]:
+                    p = f"the printed {o['output'][di:di + 2]!r} is mapped to source {sl}:{sc}, which reads {s[si:si + 6]!r}"
             if p is not None:
                 nm += 1
                 if nm <= 6:
